@@ -85,13 +85,36 @@ class Env:
         return a
 
     def intf(s, a):
-        return s.ints.get(a, (-INF, INF, frozenset()))
+        v = s.ints.get(a)
+        if v is None and a in s.alias:
+            v = s.ints.get(s.canon(a))
+        return v if v is not None else (-INF, INF, frozenset())
+
+    def nullf(s, a):
+        v = s.null.get(a)
+        if v is None and a is not None:
+            c = s.canon(a)
+            if c != a:
+                v = s.null.get(c)
+        return v
+
+    def set_null(s, a, v):
+        s.null[a] = v
+        c = s.canon(a)
+        if c != a:
+            s.null[c] = v
+
+    def set_int(s, a, v):
+        s.ints[a] = v
+        c = s.canon(a)
+        if c != a:
+            s.ints[c] = v
 
     def is_null(s, a):
-        return s.null.get(s.canon(a)) == 'Z'
+        return s.nullf(a) == 'Z'
 
     def is_nonnull(s, a):
-        return s.null.get(s.canon(a)) == 'N'
+        return s.nullf(a) == 'N'
 
 
 NEG = {'==': '!=', '!=': '==', '<': '>=', '<=': '>', '>': '<=', '>=': '<'}
@@ -167,17 +190,17 @@ def assume(cond, truth, env):
         e = env.copy()
         e.ret[kk] = ('nz', 0) if truth else ('eq', 0)
         return e
-    a = env.canon(ap(c))
+    a = ap(c)
     if a is not None and k in ('var', 'mem', 'sub', 'un'):
         if c.get('p'):
-            cur = env.null.get(a)
+            cur = env.nullf(a)
             want = 'N' if truth else 'Z'
             if cur and cur != want:
                 return None
             if cur == want:
                 return env
             e = env.copy()
-            e.null[a] = want
+            e.set_null(a, want)
             return e
         lo, hi, ex = env.intf(a)
         if truth:
@@ -187,17 +210,17 @@ def assume(cond, truth, env):
                 return env
             e = env.copy()
             if lo == 0:
-                e.ints[a] = (1, hi, ex)
+                e.set_int(a, (1, hi, ex))
             elif hi == 0:
-                e.ints[a] = (lo, -1, ex)
+                e.set_int(a, (lo, -1, ex))
             else:
-                e.ints[a] = (lo, hi, frozenset(ex | {0}))
+                e.set_int(a, (lo, hi, frozenset(ex | {0})))
             return e
         else:
             if lo > 0 or hi < 0 or 0 in ex:
                 return None
             e = env.copy()
-            e.ints[a] = (0, 0, frozenset())
+            e.set_int(a, (0, 0, frozenset()))
             return e
     if k == 'bin' and c.get('op') in NEG:
         op = c['op']
@@ -208,26 +231,26 @@ def assume(cond, truth, env):
         for x, y in ((l, r), (r, l)):
             if not isinstance(x, dict):
                 continue
-            a = env.canon(ap(x))
+            a = ap(x)
             if a is not None and is_null_const(y) and x.get('p') and op in ('==', '!='):
                 want = 'Z' if op == '==' else 'N'
-                cur = env.null.get(a)
+                cur = env.nullf(a)
                 if cur and cur != want:
                     return None
                 if cur == want:
                     return env
                 e = env.copy()
-                e.null[a] = want
+                e.set_null(a, want)
                 return e
             if isinstance(x, dict) and x.get('k') == 'asg' and x.get('op') == '=' and is_null_const(y) and op in ('==', '!='):
-                a = env.canon(ap(x['l']))
+                a = ap(x['l'])
                 if a is not None:
                     want = 'Z' if op == '==' else 'N'
-                    cur = env.null.get(a)
+                    cur = env.nullf(a)
                     if cur and cur != want:
                         return None
                     e = env.copy()
-                    e.null[a] = want
+                    e.set_null(a, want)
                     return e
         for x, y, o in ((l, r, op), (r, l, SWAP[op])):
             K = const_int(y)
@@ -262,7 +285,7 @@ def assume(cond, truth, env):
                         return None
                     e.ret[kk] = ('eq', lo) if lo == hi else ('rng', (lo, hi))
                 return e
-            a = env.canon(ap(x))
+            a = ap(x)
             if a is None:
                 continue
             lo, hi, ex = env.intf(a)
@@ -299,7 +322,7 @@ def assume(cond, truth, env):
             if (lo, hi, ex) == env.intf(a):
                 return env
             e = env.copy()
-            e.ints[a] = (lo, hi, frozenset(x_ for x_ in ex if lo < x_ < hi))
+            e.set_int(a, (lo, hi, frozenset(x_ for x_ in ex if lo < x_ < hi)))
             return e
     if k == 'bin' and c.get('op') == '&':
         # flag test: (x & MASK)
@@ -387,7 +410,7 @@ def apply_generic(ev, env, R=None):
         e = env.copy()
         ctgt = env.canon(tgt)
         e.kill(tgt)
-        if ctgt != tgt:
+        if ctgt != tgt and not _plain_local(tgt):
             e.kill(ctgt)
         if t.get('op') != '=':
             return e
@@ -406,13 +429,13 @@ def apply_generic(ev, env, R=None):
             return env
         e = env.copy()
         ctgt = env.canon(tgt)
-        lo, hi, ex = env.intf(ctgt)
+        lo, hi, ex = env.intf(tgt)
         e.kill(tgt)
-        if ctgt != tgt:
+        if ctgt != tgt and not _plain_local(tgt):
             e.kill(ctgt)
         if lo == hi and lo not in (-INF, INF) and (R is None or tgt in R or ctgt in R):
             d = 1 if t['op'] == '++' else -1
-            e.ints[ctgt] = (lo + d, hi + d, frozenset())
+            e.ints[tgt] = (lo + d, hi + d, frozenset())
         return e
     if k == 'decl':
         e = env
@@ -470,7 +493,7 @@ def _record_value(e, env, tgt, lnode, rnode):
     r = strip(rnode)
     if not isinstance(r, dict):
         return
-    ctgt = env.canon(tgt) if not _plain_local(tgt) else tgt
+    ctgt = tgt
     K = const_int(r)
     ra = ap(r)
     if is_null_const(r) and lnode.get('p'):
@@ -483,11 +506,13 @@ def _record_value(e, env, tgt, lnode, rnode):
         e.null[ctgt] = 'N'
     elif ra and not ra.startswith(tgt):
         cra = env.canon(ra)
-        if cra in env.null:
-            e.null[ctgt] = env.null[cra]
-        if cra in env.ints:
-            e.ints[ctgt] = env.ints[cra]
-        if _plain_local(tgt):
+        nv = env.nullf(ra)
+        if nv:
+            e.null[ctgt] = nv
+        iv = env.intf(ra)
+        if iv != (-INF, INF, frozenset()):
+            e.ints[ctgt] = iv
+        if _plain_local(tgt) and not cra.startswith(tgt):
             e.alias[tgt] = cra
     elif r.get('k') == 'call':
         rc = env.ret.get(key(r))
@@ -551,7 +576,8 @@ def solve(f, inits, on_event, on_exit=None, relevant=None, R=None, key_fn=None,
         if cur is e:
             return False
         j = join_env(cur, e)
-        if j.freeze() != cur.freeze():
+        if not (j.null == cur.null and j.ints == cur.ints and j.atoms == cur.atoms and j.ret == cur.ret
+                and j.alias == cur.alias and j.ts == cur.ts):
             IN[bid][k] = j
             if k not in dirty[bid]:
                 dirty[bid].append(k)
@@ -604,7 +630,7 @@ def solve(f, inits, on_event, on_exit=None, relevant=None, R=None, key_fn=None,
             track = (relevant is None) or (bid in relevant)
             for e in envs:
                 if term and term.get('c') == 'SwitchStmt' and term.get('cond') is not None:
-                    a = e.canon(ap(term['cond'])) if track else None
+                    a = ap(term['cond']) if track else None
                     cases = [B[s]['label']['lo'] for s in succ if s is not None and (B[s].get('label') or {}).get('k') == 'case' and 'hi' not in B[s]['label']]
                     for s in succ:
                         if s is None:
@@ -618,13 +644,13 @@ def solve(f, inits, on_event, on_exit=None, relevant=None, R=None, key_fn=None,
                                 if v < lo or v > hi or v in ex:
                                     continue
                                 e2 = e.copy()
-                                e2.ints[a] = (v, v, frozenset())
+                                e2.set_int(a, (v, v, frozenset()))
                             elif not lab or lab.get('k') in ('default', 'label'):
                                 # default arm (explicit or implicit): none of the case values
                                 if lo == hi and lo in cases:
                                     continue
                                 e2 = e.copy()
-                                e2.ints[a] = (lo, hi, frozenset(ex | set(c for c in cases if lo <= c <= hi)))
+                                e2.set_int(a, (lo, hi, frozenset(ex | set(c for c in cases if lo <= c <= hi))))
                         if on_branch:
                             e2 = on_branch(b, s, e2, ctx)
                             if e2 is None:
